@@ -41,6 +41,9 @@ type fnSig struct {
 	monadic bool
 	grow    bool
 	fuel    bool
+	// fourth part: the opaque callees the function (transitively) calls, in order of first use —
+	// parameters of the Lean function; the callback parameters (kFunc) are marked in params
+	opaques []fnKey
 }
 
 // comps lists the types of the components of the Lean result.
@@ -109,6 +112,8 @@ type loopCtx struct {
 	contK   cont
 	exitK   func(code int) []string
 	escapes []string // labels the body jumps to
+	label   string   // fourth part: the label of the loop statement ("" if none)
+	brk     bool     // a break statement leaves this loop
 	// third part: `range P` over a slice value — Lean name of the root of P and the field path
 	rangeVar  string
 	rangePath []string
@@ -313,6 +318,8 @@ func (c *codegen) intIndex(e ast.Expr) string {
 		return paren(s)
 	case t.unsigned():
 		return "(Int.ofNat " + paren(s) + ".toNat)"
+	case t.kind == kI32:
+		return paren(s) + ".toInt"
 	}
 	c.fail(e, "index of type %s", t)
 	return ""
@@ -357,12 +364,16 @@ func (c *codegen) compositeLit(x *ast.CompositeLit) (string, gtype) {
 		c.fail(x, "composite literal")
 	}
 	id, ok := x.Type.(*ast.Ident)
-	if !ok || c.structs[id.Name] == nil || c.lookup(id.Name) != nil {
+	if !ok || (c.structs[id.Name] == nil && !(c.phase4 && c.cur.localTypes[id.Name] != "")) || c.lookup(id.Name) != nil {
 		c.fail(x, "composite literal of type %s (only struct types)", c.src(x.Type))
 	}
 	t := c.typeOf(id, x)
 	given := map[string]string{}
-	for _, el := range x.Elts {
+	elts := x.Elts
+	if c.phase4 {
+		elts = c.keyedElts(x, t)
+	}
+	for _, el := range elts {
 		kv, ok := el.(*ast.KeyValueExpr)
 		if !ok {
 			c.fail(el, "positional composite literal")
@@ -458,7 +469,7 @@ func (c *codegen) noteOutParam(name string, direct bool, at ast.Node) {
 		return // not a parameter
 	}
 	for i, p := range c.cur.sig.params {
-		if p.name == name && p.typ.kind == kBytes {
+		if p.name == name && (p.typ.kind == kBytes || (c.phase4 && p.typ.kind == kGSlice)) {
 			if !direct {
 				c.fail(at, "write through a part of the parameter %s", name)
 			}
@@ -485,6 +496,9 @@ func (c *codegen) appendCall(x *ast.CallExpr, target string) (string, gtype) {
 		c.fail(x, "append whose result is not assigned back to its first argument (x = append(x, …)): slices are values, the old x would go stale")
 	}
 	a, at := c.expr(x.Args[0], gtype{}, false)
+	if at.kind == kGSlice && c.phase4 {
+		return c.appendGSlice(x, a, at)
+	}
 	if at.kind != kBytes {
 		c.fail(x, "append to %s", at)
 	}
@@ -545,6 +559,10 @@ func (c *codegen) call2(k fnKey, recv ast.Expr, x *ast.CallExpr) ([]string, []gt
 		c.needFuel(x)
 		parts = append(parts, "fuel")
 	}
+	for _, o := range sig.opaques {
+		c.needOpaque(o, x)
+		parts = append(parts, o.name)
+	}
 	var recvVar *varInfo
 	var recvPath []string
 	if k.recv != "" {
@@ -566,13 +584,27 @@ func (c *codegen) call2(k fnKey, recv ast.Expr, x *ast.CallExpr) ([]string, []gt
 		c.fail(x, "call of %s with %d arguments (variadic calls are not supported)", fnName(k), len(x.Args))
 	}
 	type outArg struct {
-		v *varInfo
-		p []string
-		e ast.Expr
+		v  *varInfo
+		p  []string
+		e  ast.Expr
+		cb bool
 	}
 	var outs []outArg
 	for i, a := range x.Args {
 		pt := sig.params[i].typ
+		if pt.kind == kFunc {
+			// the callback is handed on: the callee's log is appended to ours
+			id, ok := a.(*ast.Ident)
+			var v *varInfo
+			if ok {
+				v = c.lookup(id.Name)
+			}
+			if v == nil || !v.typ.eq(pt) {
+				c.fail(a, "argument %d of %s must be a callback parameter of the calling function (type %s)", i+1, fnName(k), pt)
+			}
+			outs = append(outs, outArg{v, nil, a, true})
+			continue
+		}
 		s, t := c.expr(a, pt, false)
 		if !t.eq(pt) {
 			c.fail(a, "argument %d of %s has type %s, want %s", i+1, fnName(k), t, pt)
@@ -584,7 +616,7 @@ func (c *codegen) call2(k fnKey, recv ast.Expr, x *ast.CallExpr) ([]string, []gt
 			}
 			v, p := c.path(a)
 			c.checkRangeTarget(v, p, x)
-			outs = append(outs, outArg{v, p, a})
+			outs = append(outs, outArg{v, p, a, false})
 		}
 	}
 	app := strings.Join(parts, " ")
@@ -615,7 +647,23 @@ func (c *codegen) call2(k fnKey, recv ast.Expr, x *ast.CallExpr) ([]string, []gt
 		c.cur.mutHoist = append(c.cur.mutHoist, hoist{rootIdent(recv).Name, x})
 		i++
 	}
-	for _, o := range outs {
+	for j, o := range outs {
+		if o.cb {
+			c.cur.pre = append(c.cur.pre, "let "+o.v.lean+" : "+o.v.typ.lean()+" := "+o.v.lean+" ++ "+proj(r, i, n))
+			c.cur.mutHoist = append(c.cur.mutHoist, hoist{rootIdent(o.e).Name, x})
+			i++
+			continue
+		}
+		if c.phase4 {
+			// the same variable passed for a written parameter and for another one: aliasing
+			for j2, a2 := range x.Args {
+				if id2 := rootIdent(a2); id2 != nil && a2 != o.e && id2.Name == rootIdent(o.e).Name {
+					c.fail(x, "variable %s is passed twice to %s, which writes one of the two parameters (aliasing)", id2.Name, fnName(k))
+				}
+				_ = j2
+			}
+		}
+		_ = j
 		c.cur.pre = append(c.cur.pre, "let "+o.v.lean+" : "+o.v.typ.lean()+" := "+update(o.v.lean, o.p, proj(r, i, n)))
 		c.cur.mutHoist = append(c.cur.mutHoist, hoist{rootIdent(o.e).Name, x})
 		c.noteOutParam(rootIdent(o.e).Name, len(o.p) == 0, x)
@@ -715,7 +763,14 @@ func (c *codegen) forStmt(x *ast.ForStmt, rest []ast.Stmt, k cont) []string {
 	if !c.phase2 {
 		c.fail(x, "for loop (only `for _, x := range slice` is supported)")
 	}
-	if x.Init != nil || x.Post != nil {
+	if x.Init != nil && c.phase4 {
+		// for init; cond; post { … }  ↦  { init; for cond; post { … } }
+		loop := *x
+		loop.Init = nil
+		blk := &ast.BlockStmt{Lbrace: x.Pos(), List: []ast.Stmt{x.Init, &loop}, Rbrace: x.End()}
+		return c.seq(append([]ast.Stmt{blk}, rest...), k)
+	}
+	if x.Init != nil || (x.Post != nil && !c.phase4) {
 		c.fail(x, "for loop with init or post statement (only `for cond { … }`)")
 	}
 	return c.loopStmt(x, x.Body, rest, k)
@@ -730,8 +785,17 @@ const exitMark = "\x00exit "
 // body contains `goto L` (L a label of the function body) the result also carries an exit
 // code: 0 for the normal exit, i > 0 for the i-th label.
 func (c *codegen) loopStmt(x ast.Stmt, bodyStmt *ast.BlockStmt, rest []ast.Stmt, k cont) []string {
+	loopLabel := c.cur.pendingLabel
+	c.cur.pendingLabel = ""
 	if hasReturn(bodyStmt.List) {
-		c.fail(x, "return inside a loop")
+		if !c.phase4 {
+			c.fail(x, "return inside a loop")
+		}
+		if pre := c.declareRetVars(x); len(pre) > 0 {
+			// the hidden result variables are declared in front of the (outermost) loop
+			c.cur.pendingLabel = loopLabel
+			return append(pre, c.loopStmt(x, bodyStmt, rest, k)...)
+		}
 	}
 	fx, _ := x.(*ast.ForStmt)
 	rx, _ := x.(*ast.RangeStmt)
@@ -741,6 +805,17 @@ func (c *codegen) loopStmt(x ast.Stmt, bodyStmt *ast.BlockStmt, rest []ast.Stmt,
 	}
 	c.cur.nbind++
 	vars := c.assignedOuter(x, []ast.Stmt{x})
+	if c.phase4 && hasReturn(bodyStmt.List) {
+		for _, rv := range c.cur.retVars {
+			dup := false
+			for _, v := range vars {
+				dup = dup || v == rv
+			}
+			if !dup {
+				vars = append(vars, rv)
+			}
+		}
+	}
 	if len(vars) == 0 {
 		c.fail(x, "loop that assigns no variable declared outside of it")
 	}
@@ -818,6 +893,9 @@ func (c *codegen) loopStmt(x ast.Stmt, bodyStmt *ast.BlockStmt, rest []ast.Stmt,
 	if rx != nil && usesFuel {
 		callParts = append(callParts, "fuel")
 	}
+	for _, o := range c.cur.sig.opaques {
+		callParts = append(callParts, o.name)
+	}
 	for _, v := range caps {
 		vi := c.lookup(v)
 		callParts = append(callParts, vi.lean)
@@ -841,14 +919,25 @@ func (c *codegen) loopStmt(x ast.Stmt, bodyStmt *ast.BlockStmt, rest []ast.Stmt,
 		}
 		return []string{strings.Join(callParts, " ") + " fuel " + strings.Join(stateNames, " ")}
 	}
-	lc := &loopCtx{contK: invoke}
+	lc := &loopCtx{contK: invoke, label: loopLabel}
+	if fx != nil && fx.Post != nil {
+		// `continue` (and falling off the end of the body) runs the post statement first; it is
+		// translated in the scope of the loop statement
+		depth := len(c.cur.scopes)
+		lc.contK = func() []string {
+			saved := c.cur.scopes
+			c.cur.scopes = c.snapshotScopes()[:depth]
+			defer func() { c.cur.scopes = saved }()
+			return c.seq([]ast.Stmt{fx.Post}, invoke)
+		}
+	}
 	if idxMode {
 		lc.rangeVar, lc.rangePath = rangeRoot.lean, rangePath
 	}
 	lc.exitK = func(code int) []string {
 		return []string{fmt.Sprintf("%s%d %s", exitMark, code, tupleVal(stateNames))}
 	}
-	lc.breakK = func() []string { return lc.exitK(0) }
+	lc.breakK = func() []string { lc.brk = true; return lc.exitK(0) }
 
 	cond := ""
 	if fx != nil && fx.Cond != nil {
@@ -902,10 +991,10 @@ func (c *codegen) loopStmt(x ast.Stmt, bodyStmt *ast.BlockStmt, rest []ast.Stmt,
 		} else {
 			bindIter(rx.Value, elemVar, *rangeT.elem)
 		}
-		body = append(body, c.block(bodyStmt.List, invoke)...)
+		body = append(body, c.block(bodyStmt.List, lc.contK)...)
 		c.pop()
 	} else {
-		body = c.block(bodyStmt.List, invoke)
+		body = c.block(bodyStmt.List, lc.contK)
 	}
 	c.cur.loops = c.cur.loops[:len(c.cur.loops)-1]
 
@@ -943,6 +1032,7 @@ func (c *codegen) loopStmt(x ast.Stmt, bodyStmt *ast.BlockStmt, rest []ast.Stmt,
 	if rx != nil && usesFuel {
 		hdr += " (fuel : Nat)"
 	}
+	hdr += c.opaqueDecls(c.cur.sig, x)
 	if len(capDecl) > 0 {
 		hdr += " " + strings.Join(capDecl, " ")
 	}
@@ -982,7 +1072,7 @@ func (c *codegen) loopStmt(x ast.Stmt, bodyStmt *ast.BlockStmt, rest []ast.Stmt,
 	if escapes {
 		doc += "; the first component of the result is the exit: 0 = the loop ended"
 		for i, l := range lc.escapes {
-			doc += fmt.Sprintf(", %d = goto %s", i+1, l)
+			doc += fmt.Sprintf(", %d = %s", i+1, escapeDoc(l))
 		}
 	}
 	def = append(def, doc+" -/", hdr)
@@ -1053,7 +1143,17 @@ func (c *codegen) loopStmt(x ast.Stmt, bodyStmt *ast.BlockStmt, rest []ast.Stmt,
 			defer func() { c.cur.scopes = saved }()
 			return c.seq(rest, k)
 		}
+		// Go: a `for` statement without condition and without a break referring to it is a
+		// terminating statement — the normal exit (code 0) does not exist, the last exit needs no test
+		terminating := c.phase4 && fx != nil && fx.Cond == nil && !lc.brk
 		for i, l := range lc.escapes {
+			if terminating && i == len(lc.escapes)-1 {
+				saved := c.cur.scopes
+				c.cur.scopes = c.snapshotScopes()
+				lines = append(lines, c.gotoK(l, x)...)
+				c.cur.scopes = saved
+				return lines
+			}
 			lines = append(lines, fmt.Sprintf("if %s = %d then", proj(r, 0, n), i+1))
 			saved := c.cur.scopes
 			c.cur.scopes = c.snapshotScopes()
@@ -1063,6 +1163,9 @@ func (c *codegen) loopStmt(x ast.Stmt, bodyStmt *ast.BlockStmt, rest []ast.Stmt,
 		}
 		return append(lines, restK()...)
 	}
+	if c.phase4 && fx != nil && fx.Cond == nil && !lc.brk {
+		c.fail(x, "for loop without condition, break or other exit")
+	}
 	return append(lines, c.seq(rest, k)...)
 }
 
@@ -1071,6 +1174,9 @@ func (c *codegen) loopStmt(x ast.Stmt, bodyStmt *ast.BlockStmt, rest []ast.Stmt,
 // body follow (the label is a statement of the function body, so every variable visible
 // there is visible at the goto and has kept its Lean name).
 func (c *codegen) gotoK(label string, at ast.Node) []string {
+	if isPseudoLabel(label) {
+		return c.pseudoGotoK(label, at)
+	}
 	li, ok := c.cur.labels[label]
 	if !ok || len(li) == 0 || li[0].Pos() <= at.Pos() {
 		c.fail(at, "goto %s: only labels on statements of the function body, jumped to forwards", label)
@@ -1097,6 +1203,12 @@ func (c *codegen) branchStmt(x *ast.BranchStmt, rest []ast.Stmt) []string {
 			c.fail(rest[0], "statement after goto")
 		}
 		return c.gotoK(x.Label.Name, x)
+	}
+	if x.Label != nil && c.phase4 && (x.Tok == token.BREAK || x.Tok == token.CONTINUE) {
+		if len(rest) > 0 {
+			c.fail(rest[0], "statement after %s", x.Tok)
+		}
+		return c.pseudoGotoK(pseudoLabel(x.Tok, x.Label.Name), x)
 	}
 	if x.Label != nil || (x.Tok != token.BREAK && x.Tok != token.CONTINUE) {
 		c.fail(x, "%s statement", x.Tok)
@@ -1126,6 +1238,10 @@ func hasJump(list []ast.Stmt) bool {
 			switch y := m.(type) {
 			case *ast.ReturnStmt:
 				found = true
+			case *ast.ExprStmt:
+				if isPanicStmt(y) {
+					found = true // like a return: the statements after it are not executed
+				}
 			case *ast.BranchStmt:
 				if y.Tok == token.GOTO || y.Label != nil || !inLoop {
 					found = true
@@ -1308,6 +1424,9 @@ func (c *codegen) namedResults(at ast.Node) []string {
 func (c *codegen) ret2(x *ast.ReturnStmt) []string {
 	f := c.cur
 	if len(f.loops) > 0 {
+		if c.phase4 {
+			return c.retInLoop(x)
+		}
 		c.fail(x, "return inside a for loop")
 	}
 	if len(x.Results) == 0 {
@@ -1337,7 +1456,7 @@ func (c *codegen) ret2(x *ast.ReturnStmt) []string {
 // second pass emits it.
 func (c *codegen) function2(k fnKey) fnOut {
 	_, probe := c.gen2(k, &fnSig{}, true)
-	flags := &fnSig{monadic: probe.monadic, grow: probe.grow, fuel: probe.fuel}
+	flags := &fnSig{monadic: probe.monadic, grow: probe.grow, fuel: probe.fuel, opaques: probe.opaques}
 	for _, p := range probe.params {
 		flags.params = append(flags.params, sparam{name: p.name, out: p.out})
 	}
@@ -1348,7 +1467,7 @@ func (c *codegen) function2(k fnKey) fnOut {
 
 func (c *codegen) gen2(k fnKey, flags *fnSig, probe bool) (fnOut, *fnSig) {
 	fd := c.fns[k]
-	sig := &fnSig{monadic: flags.monadic, grow: flags.grow, fuel: flags.fuel}
+	sig := &fnSig{monadic: flags.monadic, grow: flags.grow, fuel: flags.fuel, opaques: append([]fnKey{}, flags.opaques...)}
 	f := &fnCtx{key: k, fd: fd, used: map[string]bool{}, errSiteOf: map[token.Pos]int{}, sig: sig, probe: probe}
 	prev := c.cur // restored also while a refusal unwinds through the caller's frames
 	c.cur = f
@@ -1381,6 +1500,8 @@ func (c *codegen) gen2(k fnKey, flags *fnSig, probe bool) (fnOut, *fnSig) {
 	}
 	gosig += fd.Name.Name + "("
 	var ps []string
+	var cbInit []string
+	f.localTypes = map[string]string{}
 	for _, p := range fd.Type.Params.List {
 		if _, ok := p.Type.(*ast.Ellipsis); ok {
 			c.fail(fd, "variadic parameter")
@@ -1395,8 +1516,14 @@ func (c *codegen) gen2(k fnKey, flags *fnSig, probe bool) (fnOut, *fnSig) {
 				c.fail(fd, "blank parameter")
 			}
 			v := c.declare(n.Name, t)
-			params = append(params, fmt.Sprintf("(%s : %s)", v.lean, t.lean()))
 			ns = append(ns, n.Name)
+			if t.kind == kFunc {
+				// a callback parameter: not a Lean parameter, its calls are logged (code_part4.go)
+				cbInit = append(cbInit, fmt.Sprintf("let %s : %s := []", v.lean, t.lean()))
+				sig.params = append(sig.params, sparam{n.Name, t, true})
+				continue
+			}
+			params = append(params, fmt.Sprintf("(%s : %s)", v.lean, t.lean()))
 			out := false
 			if i := len(sig.params); i < len(flags.params) {
 				out = flags.params[i].out
@@ -1449,6 +1576,7 @@ func (c *codegen) gen2(k fnKey, flags *fnSig, probe bool) (fnOut, *fnSig) {
 		c.checkSig3(fd, sig)
 	}
 	var body []string
+	body = append(body, cbInit...)
 	for _, r := range sig.results {
 		if r.name != "" {
 			v := c.declare(r.name, r.typ)
@@ -1485,6 +1613,7 @@ func (c *codegen) gen2(k fnKey, flags *fnSig, probe bool) (fnOut, *fnSig) {
 	if sig.fuel {
 		hdr += " (fuel : Nat)"
 	}
+	hdr += c.opaqueDecls(sig, fd)
 	if len(params) > 0 {
 		hdr += " " + strings.Join(params, " ")
 	}
@@ -1556,6 +1685,9 @@ func (c *codegen) assignedOuter2(at ast.Node, lists ...[]ast.Stmt) []string {
 			case *ast.Ident:
 				if f.Name == "copy" && len(call.Args) == 2 {
 					mark(call.Args[0])
+				}
+				if c.phase4 {
+					c.markCallEffects4(f, call, local, mark)
 				}
 				if ri := c.reflOf(f.Name); ri != nil && ri.setter && len(call.Args) > 0 {
 					mark(call.Args[0])
